@@ -43,7 +43,7 @@ TIMEFUNCS = ["timegm", "mktime", "localtime_r", "gmtime_r", "localtime", "gmtime
 WRITABLE_SECT = re.compile(r"^(\.data(?!\.rel\.ro)|\.bss|\.tdata|\.tbss|\*COM\*|\.sdata|\.sbss)")
 RELRO_SECT = re.compile(r"^\.data\.rel\.ro")
 
-PLAIN_FLAGS = ["-std=gnu99", build.GUARD, "-w", "-g"]
+PLAIN_FLAGS = ["-std=gnu99", build.GUARD, "-w"]       # no -g: `nm -f sysv` would parse the DWARF line table
 
 # ------------------------------------------------------------------ objects
 
@@ -65,56 +65,58 @@ def compile_plain(opt="-O0"):
     build._evict()
     return {s: os.path.join(d, "obj", os.path.basename(s)[:-2] + ".o") for s in srcs}
 
-def nm_objects(obj):
-    """([(name, section, nm-class, "local"|"global")] of OBJECT/TLS/COMMON symbols, [undefined names], {function names})."""
-    r = subprocess.run(["nm", "-f", "sysv", obj], stdout=subprocess.PIPE, stderr=subprocess.PIPE, text=True)
+_NM_CACHE = {}
+
+def nm_many(objs):
+    """One `nm -f sysv` call for many objects (process start-up dominates); fills the cache used by nm_objects."""
+    objs = [o for o in objs if o not in _NM_CACHE]
+    if not objs: return
+    r = subprocess.run(["nm", "-f", "sysv"] + objs, stdout=subprocess.PIPE, stderr=subprocess.PIPE, text=True)
     if r.returncode != 0:
-        raise build.BuildError("nm failed on " + obj + "\n" + r.stderr)
-    syms, undef, funcs = [], [], set()
+        raise build.BuildError("nm failed\n" + r.stderr[-2000:])
+    cur = objs[0] if len(objs) == 1 else None
+    for o in objs: _NM_CACHE[o] = ([], [], set())
     for line in r.stdout.split("\n"):
+        m = re.match(r"^(?:Undefined symbols|Symbols) from (.*):$", line)
+        if m: cur = m.group(1); continue
         f = [x.strip() for x in line.split("|")]
-        if len(f) != 7 or f[0] == "Name": continue
+        if len(f) != 7 or f[0] == "Name" or cur is None: continue
+        syms, undef, funcs = _NM_CACHE[cur]
         name, _val, cls, typ, _size, _line, sect = f
         if cls == "U" or sect == "*UND*":
             undef.append(name); continue
         if typ == "FUNC": funcs.add(name); continue
         if typ in ("OBJECT", "TLS", "COMMON") or cls in "bBdDsSgGcC":
             syms.append((name, sect, cls, "local" if cls.islower() else "global"))
-    return syms, undef, funcs
+
+def nm_objects(obj):
+    """([(name, section, nm-class, "local"|"global")] of OBJECT/TLS/COMMON symbols, [undefined names], {function names})."""
+    nm_many([obj])
+    return _NM_CACHE[obj]
 
 # ------------------------------------------------------------------ source scan
 
+_TOK_RE = re.compile(r"""
+    (?P<cmt>/\*.*?\*/|//[^\n]*)
+  | (?P<str>"(?:\\.|[^"\\\n])*"|'(?:\\.|[^'\\\n])*')
+  | (?P<pp>^[ \t]*\#(?:[^\n\\]|\\\n|\\.)*)
+""", re.S | re.M | re.X)
+
 def strip_c(text, keep_pp=False):
     """Blank out comments, string/char literals and (unless keep_pp) preprocessor lines, keeping offsets and newlines."""
-    out = list(text); i = 0; n = len(text)
-    def blank(a, b):
-        for k in range(a, b):
-            if out[k] != "\n": out[k] = " "
-    bol = True
-    while i < n:
-        c = text[i]
-        if text.startswith("/*", i):
-            j = text.find("*/", i + 2); j = n if j < 0 else j + 2
-            blank(i, j); i = j; continue
-        if text.startswith("//", i):
-            j = text.find("\n", i); j = n if j < 0 else j
-            blank(i, j); i = j; continue
-        if c == '"' or c == "'":
-            j = i + 1
-            while j < n and text[j] != c:
-                j += 2 if text[j] == "\\" else 1
-            blank(i + 1, min(j, n)); i = j + 1; bol = False; continue
-        if c == "#" and bol and not keep_pp:
-            j = i
-            while True:
-                k = text.find("\n", j); k = n if k < 0 else k
-                if k > 0 and text[k - 1] == "\\" and k < n: j = k + 1; continue
-                break
-            blank(i, k); i = k; continue
-        if c == "\n": bol = True
-        elif not c.isspace(): bol = False
-        i += 1
-    return "".join(out)
+    def blank(t): return re.sub(r"[^\n]", " ", t)
+    def rep(m):
+        t = m.group(0)
+        if m.group("cmt") is not None: return blank(t)
+        if m.group("str") is not None: return t[0] + blank(t[1:-1]) + t[-1]
+        if keep_pp:
+            # keep the directive text but still blank comments/strings inside it
+            return _TOK_RE.sub(lambda k: k.group(0) if k.group("pp") is not None and k.start() == 0 else rep(k), t[:1]) + \
+                   _INNER_RE.sub(lambda k: blank(k.group(0)) if k.group("cmt") is not None else k.group(0)[0] + blank(k.group(0)[1:-1]) + k.group(0)[-1], t[1:])
+        return blank(t)
+    return _TOK_RE.sub(rep, text)
+
+_INNER_RE = re.compile(r"""(?P<cmt>/\*.*?\*/|//[^\n]*)|(?P<str>"(?:\\.|[^"\\\n])*"|'(?:\\.|[^'\\\n])*')""", re.S)
 
 def _strip_brackets(s):
     out = []; d = 0
@@ -282,6 +284,7 @@ def inventory(srcs_objs, srcs_objs_opt=None):
     owners = {}         # function -> file   (functions owning a mutable static)
     undef_by_file = {}
     nonre = []; timei = []
+    nm_many(sorted(srcs_objs.values()) + (sorted(srcs_objs_opt.values()) if srcs_objs_opt else []))
     for src in sorted(srcs_objs):
         obj = srcs_objs[src]
         fname = os.path.basename(src)
@@ -435,6 +438,7 @@ def translate(lean_dir=None):
 def scan_objects(objs):
     """Writable-section OBJECT symbols of arbitrary objects (used on the generated module objects)."""
     out = []
+    nm_many(list(objs))
     for o in objs:
         syms, _, _ = nm_objects(o)
         for name, sect, cls, bind in syms:
